@@ -166,7 +166,7 @@ def DynCall(k, wrapper): return ('dyncall', k, wrapper)              # rule 7: k
 def DynCallId(name, k, wrapper): return ('dyncallid', name, k, wrapper)   # rule 7: k-th `name(args)` -> wrapper(name, args)
 def Wrap(sel, before, after): return ('wrap', sel, before, after)     # wrap the k-th call expression textually: before + expr + after
 
-def apply_fn(f, ed, spec, counters, mode='full'):
+def apply_fn(f, ed, spec, counters, mode='full', probe=False):
     """register the edits of one FnSpec on Edits `ed` (offsets of file f).
     mode: full = contract + proof hints; contract_only = contract, signature-level ops only; external = contract assumed, body dropped."""
     fn = f.fns.get(spec.key)
@@ -198,6 +198,8 @@ def apply_fn(f, ed, spec, counters, mode='full'):
         if spec.trust: counters['trusted_bodies'] = counters.get('trusted_bodies', 0) + 1
         return
     ops = spec.ops if mode == 'full' else [op for op in spec.ops if op[0] == 'ghostarg']
+    if probe:
+        ed.insert(f.toks[fn.i_bo].b, '\n        assert(false); // @PROBE ' + spec.key)
     try:
         _apply_ops(f, fn, v, ed, spec, ops, counters)
     except AnchorLost as e:
@@ -417,6 +419,9 @@ def fold_string_concat(f, fn, ed, counters):
             b += 1
         end = b          # exclusive
         for p in plus: done.add(p)
+        chain = f.src[t[start].a:t[end - 1].b]
+        if not ('"' in chain or '.to_string()' in chain or 'expr()' in chain or '&' in chain):
+            continue          # no syntactic evidence of a String operand: integer arithmetic, left alone
         n = len(plus)
         ed.insert(t[start].a, 'vx_add(' * n)
         for k, p in enumerate(plus):
